@@ -711,6 +711,74 @@ def _blank_lines_and_comments(src):
     return out
 
 
+def _package_transform(transform_func):
+    """Apply an ast transformer factory to every function of every module of the package."""
+    def run(src):
+        out = dict(src)
+        for k, v in src.items():
+            if k in ("hll_constants", "hll_bias_experiment", "__init__"):
+                continue
+            tree = _ast.parse(v)
+            tree = transform_func(tree)
+            out[k] = _ast.unparse(_ast.fix_missing_locations(tree)) + "\n"
+        return out
+    return run
+
+
+class _InvertIfElse(_ast.NodeTransformer):
+    """`if c: A else: B`  ->  `if not c: B else: A`   (every if that has an else arm; elif chains become nested ifs)."""
+
+    def visit_If(self, n):
+        self.generic_visit(n)
+        if n.orelse:
+            return _ast.copy_location(_ast.If(test=_ast.UnaryOp(op=_ast.Not(), operand=n.test), body=n.orelse, orelse=n.body), n)
+        return n
+
+
+class _FlipCompares(_ast.NodeTransformer):
+    """`a < b` -> `b > a`, `a <= b` -> `b >= a`, `a == b` -> `b == a`, `a != b` -> `b != a` (single comparisons of side-effect-free operands)."""
+    FLIP = {_ast.Lt: _ast.Gt, _ast.Gt: _ast.Lt, _ast.LtE: _ast.GtE, _ast.GtE: _ast.LtE, _ast.Eq: _ast.Eq, _ast.NotEq: _ast.NotEq}
+
+    def visit_Compare(self, n):
+        self.generic_visit(n)
+        if len(n.ops) == 1 and type(n.ops[0]) in self.FLIP and not any(isinstance(x, _ast.Call) and not (isinstance(x.func, _ast.Name) and x.func.id in ("len", "uint64", "uint32", "uint16", "uint8", "float64", "int")) and not (isinstance(x.func, _ast.Attribute) and x.func.attr in ("uint64", "uint32", "uint16", "uint8", "float64", "n_added", "all"))
+                                                                  for x in _ast.walk(n)):
+            return _ast.copy_location(_ast.Compare(left=n.comparators[0], ops=[self.FLIP[type(n.ops[0])]()], comparators=[n.left]), n)
+        return n
+
+
+class _ExplicitAug(_ast.NodeTransformer):
+    """`a[i] op= v` -> `a[i] = a[i] op v` everywhere; `x op= v` -> `x = x op v` inside @njit kernels (scalars)."""
+
+    def __init__(self):
+        self.in_kernel = False
+
+    def visit_FunctionDef(self, f):
+        old = self.in_kernel
+        self.in_kernel = any("njit" in _ast.unparse(d) for d in f.decorator_list)
+        self.generic_visit(f)
+        self.in_kernel = old
+        return f
+
+    def visit_AugAssign(self, n):
+        import copy as _copy
+        simple_index = isinstance(n.target, _ast.Subscript) and not any(isinstance(x, _ast.Call) for x in _ast.walk(n.target))
+        if simple_index or (isinstance(n.target, _ast.Name) and self.in_kernel):
+            load = _copy.deepcopy(n.target)
+            for x in _ast.walk(load):
+                if hasattr(x, "ctx"):
+                    x.ctx = _ast.Load()
+            load.ctx = _ast.Load()
+            return _ast.copy_location(_ast.Assign(targets=[n.target], value=_ast.BinOp(left=load, op=n.op, right=n.value)), n)
+        return n
+
+
+add("E-global-05-invert-every-if-else", ALL_PROPS, "*", _package_transform(lambda t: _InvertIfElse().visit(t)), None, kind="E",
+    note="every if/else has its arms swapped under a negated test (elif chains become nested ifs)")
+add("E-global-06-flip-every-comparison", ALL_PROPS, "*", _package_transform(lambda t: _FlipCompares().visit(t)), None, kind="E",
+    note="every single comparison has its operands swapped (a < b -> b > a, a == b -> b == a)")
+add("E-global-07-explicit-augmented-assignments", ALL_PROPS, "*", _package_transform(lambda t: _ExplicitAug().visit(t)), None, kind="E",
+    note="a[i] op= v -> a[i] = a[i] op v everywhere; x op= v -> x = x op v in kernels")
 add("E-global-01-ast-roundtrip-reformat", ALL_PROPS, "*", _reformat, None, kind="E", note="comments dropped, layout/quotes/parentheses normalised, all line numbers change")
 add("E-global-02-rename-all-locals", ALL_PROPS, "*", _rename_locals, None, kind="E", note="every local variable of every function renamed")
 add("E-global-03-shift-line-numbers", ALL_PROPS, "*", _blank_lines_and_comments, None, kind="E", note="two lines inserted at the top of every module")
